@@ -12,8 +12,9 @@ from concurrent.futures import ThreadPoolExecutor
 
 VERIF = os.path.dirname(os.path.dirname(os.path.abspath(__file__)))
 SPEC = os.path.join(VERIF, "spec")
-EVID = os.path.join(VERIF, "evidence")
-REPLAYS = os.path.join(VERIF, "replays")
+# runs against a scratch copy of the repository (seeded changes) must not overwrite the evidence of /repo
+EVID = os.environ.get("XGI_VERIF_EVIDENCE", os.path.join(VERIF, "evidence"))
+REPLAYS = os.environ.get("XGI_VERIF_REPLAYS", os.path.join(VERIF, "replays"))
 REPO = os.environ.get("XGI_REPO", "/repo")
 TLA_CP = "/opt/veriftools/tla/tla2tools.jar:/opt/veriftools/tla/CommunityModules-deps.jar"
 NCPU = min(16, os.cpu_count() or 4)
